@@ -804,6 +804,19 @@ fn model_sized(large: bool) -> BoxedStrategy<Model> {
                     (id, b)
                 })
                 .collect();
+            // custom signal ids: SIG_<i>; sometimes names that begin like the predefined ones (S_SPEED), or an id that is
+            // the concatenation of two other ids (with or without a separator)
+            let sig_name = move |i: usize| -> String {
+                match (i, collide % 7, collide % 13) {
+                    (2, 5, _) => "S_SPEED".to_string(),
+                    (3, 5, _) => "S_UINT8_SCALED".to_string(),
+                    (2, _, 6) => "SIG_0-SIG_1".to_string(),
+                    (2, _, 7) => "SIG_0SIG_1".to_string(),
+                    (2, _, 8) => "SIG_0_SIG_1".to_string(),
+                    (2, _, 9) => "SIG_0,SIG_1".to_string(),
+                    _ => format!("SIG_{}", i),
+                }
+            };
             // signals refer to codings 0..8 (some dangling when there are fewer codings)
             let signals: Vec<(String, String)> = signals
                 .into_iter()
@@ -816,7 +829,7 @@ fn model_sized(large: bool) -> BoxedStrategy<Model> {
                         (0, 3) => "SIG_0".to_string(),
                         _ => format!("CODING_{}", c),
                     };
-                    (format!("SIG_{}", i), r)
+                    (sig_name(i), r)
                 })
                 .collect();
             let pdus: Vec<Pdu> = pdus
@@ -834,7 +847,7 @@ fn model_sized(large: bool) -> BoxedStrategy<Model> {
                             .map(|((_, r), s)| {
                                 let name = match *r {
                                     x if (x as usize) < 16 => STANDARD_SIGNALS[x as usize].to_string(),
-                                    x if x < 24 => format!("SIG_{}", x - 16), // custom signal (may not exist)
+                                    x if x < 24 => sig_name(x as usize - 16), // custom signal (may not exist)
                                     x if x < 28 => "S_UNKNOWN_THING".to_string(),
                                     _ => "S_FLOA16".to_string(),
                                 };
@@ -844,6 +857,12 @@ fn model_sized(large: bool) -> BoxedStrategy<Model> {
                     }
                 })
                 .collect();
+            // when an id is the concatenation of two others, one PDU lists the two and another lists the concatenation
+            let mut pdus = pdus;
+            if (6..=9).contains(&(collide % 13)) && collide % 7 != 5 && signals.len() >= 3 && pdus.len() >= 2 && pdus[0].id != pdus[1].id {
+                pdus[0].signals = vec![(0, "SIG_0".to_string()), (1, "SIG_1".to_string())];
+                pdus[1].signals = vec![(0, sig_name(2))];
+            }
             let n_pdus = pdus.len();
             let mut frames: Vec<Frame> = frames
                 .into_iter()
